@@ -1,5 +1,144 @@
 // harness commands owned by the check of property C01 (see tools/props/C01.py)
-#[allow(unused_variables)]
+//
+//   c01run <opts> <hexsrc> [<name>=<hexsrc>...]
+//       like `run` (plus a host module table like `mods`), but print() is intercepted:
+//         print("@@C")     -> record `G <collections so far> <boxes in the heap>`
+//         print("@@SNAP")  -> heap snapshot through hook H2 (`verif::snapshot()`), then a forced
+//                             collection, then the survivor list:
+//                               SNAP <index> <number of boxes>
+//                               B <id> <hex type name> <num_roots> <nm> m.. <nb> b.. <ng> g..
+//                               L <id of every box that survived, allocation order>
+//                             ids are positions in allocation order at snapshot time.
+//       Everything else is printed as usual (`O` records).  One more snapshot is taken after the program
+//       has ended while the Vm is still alive when opts contains `snap_end=1`.
+use std::cell::RefCell;
+use std::collections::HashMap;
+
+use yarel::error::{Error, ErrorKind};
+use yarel::memory::verif as gcv;
+use yarel::value::Value;
+use yarel::vm::{self, Vm};
+
+thread_local! {
+    static RECS: RefCell<Vec<String>> = RefCell::new(Vec::new());
+    static NSNAP: RefCell<usize> = RefCell::new(0);
+}
+
+fn snapshot_and_collect() {
+    let snap = gcv::snapshot();
+    let mut ids: HashMap<usize, usize> = HashMap::new();
+    for (i, b) in snap.iter().enumerate() {
+        ids.insert(b.addr, i);
+    }
+    let idx = NSNAP.with(|n| {
+        let v = *n.borrow();
+        *n.borrow_mut() = v + 1;
+        v
+    });
+    let mut lines = Vec::with_capacity(snap.len() + 2);
+    lines.push(format!("SNAP {} {}", idx, snap.len()));
+    for (i, b) in snap.iter().enumerate() {
+        let mut s = format!("B {} {} {}", i, crate::hex(b.kind.as_bytes()), b.num_roots);
+        for set in [&b.marks, &b.blackens_black, &b.blackens_grey] {
+            s.push_str(&format!(" {}", set.len()));
+            for a in set.iter() {
+                s.push_str(&format!(" {}", ids.get(a).copied().unwrap_or(usize::MAX)));
+            }
+        }
+        lines.push(s);
+    }
+    // flush before the collection: if the real collector hangs or overflows the host stack the
+    // orchestrator still sees which snapshot it was working on
+    RECS.with(|r| r.borrow_mut().append(&mut lines));
+    gcv::force_collect();
+    let live: Vec<String> = gcv::live_addrs()
+        .iter()
+        .map(|a| match ids.get(a) {
+            Some(i) => i.to_string(),
+            None => "?".to_owned(),
+        })
+        .collect();
+    RECS.with(|r| r.borrow_mut().push(format!("L {}", live.join(" "))));
+}
+
+fn c01_print(vm: &mut Vm, num_args: usize) -> Result<Value, Error> {
+    if num_args != 1 {
+        return Err(Error::with_message(
+            ErrorKind::TypeError,
+            "Expected one argument to 'print'.",
+        ));
+    }
+    let text = format!("{}", vm.native_arg(1));
+    if text == "@@C" {
+        let (_, _, n, c) = gcv::stats();
+        RECS.with(|r| r.borrow_mut().push(format!("G {} {}", c, n)));
+    } else if text == "@@SNAP" {
+        snapshot_and_collect();
+    } else {
+        crate::OUTPUT.with(|o| o.borrow_mut().push(text));
+    }
+    Ok(Value::None)
+}
+
+fn cmd_c01run(args: &[&str], out: &mut Vec<String>) {
+    let o = crate::parse_opts(args[0]);
+    let snap_end = args[0].split(',').any(|kv| kv == "snap_end=1");
+    let src = crate::unhex_str(args[1]);
+    crate::MODULES.with(|m| {
+        let mut m = m.borrow_mut();
+        m.clear();
+        for a in &args[2..] {
+            let mut it = a.splitn(2, '=');
+            let name = crate::unhex_str(it.next().unwrap());
+            let src = crate::unhex_str(it.next().unwrap_or("-"));
+            m.insert(name, src);
+        }
+    });
+    RECS.with(|r| r.borrow_mut().clear());
+    NSNAP.with(|n| *n.borrow_mut() = 0);
+    gcv::set_deref_check(Some(crate::deref_check));
+    let mut vm = crate::new_vm();
+    vm.set_printer(c01_print);
+    crate::setup(&o);
+    gcv::take_alloc_log();
+    let r = std::panic::catch_unwind(std::panic::AssertUnwindSafe(|| vm::interpret(&mut vm, src, None)));
+    match r {
+        Ok(r) => {
+            crate::emit_result(out, &r);
+            if snap_end {
+                snapshot_and_collect();
+            }
+            out.append(&mut RECS.with(|r| std::mem::take(&mut *r.borrow_mut())));
+            crate::emit_stats(out, &o);
+        }
+        Err(p) => {
+            // keep what was recorded so far, then let main.rs report the panic
+            out.append(&mut RECS.with(|r| std::mem::take(&mut *r.borrow_mut())));
+            let (b, t, n, c) = gcv::stats();
+            out.push(format!("S {} {} {} {}", b, t, n, c));
+            for l in crate::OUTPUT.with(|o| std::mem::take(&mut *o.borrow_mut())) {
+                out.push(format!("O {}", crate::hex(l.as_bytes())));
+            }
+            let msg = if let Some(s) = p.downcast_ref::<String>() {
+                s.clone()
+            } else if let Some(s) = p.downcast_ref::<&str>() {
+                (*s).to_owned()
+            } else {
+                "panic".to_owned()
+            };
+            out.push(format!("R panic {}", crate::hex(msg.as_bytes())));
+            // the Vm may be in any state: leak it rather than run destructors over it
+            std::mem::forget(vm);
+        }
+    }
+}
+
 pub fn dispatch(cmd: &str, args: &[&str], out: &mut Vec<String>) -> bool {
-    false
+    match cmd {
+        "c01run" => {
+            cmd_c01run(args, out);
+            true
+        }
+        _ => false,
+    }
 }
